@@ -497,6 +497,8 @@ func TestC10Templates(t *testing.T) {
 		"(_)", "$t = _", "$t = $u = _", "o1, _", "_(o1)", "_(_)", "f(g(_))", "[[_]]", "f([_], g(o1, _))", "(o1 ? [_] : f(_)) + o2", "$t = _, $t + _",
 		// a local that the formula itself binds, read as a path before and after the binding: a path is a path
 		"fnV(o1, o2, [_, o3]...)", "fnV(o1, o2, [o3, _]...)", "f(o1, [_]...)", "fnSV(o1, _, [o2, o3]...)", "fnSV(o1, o2, [o3, o4, _]...)", "max([_, o1]...)",
+		// callees that are computed: on the unchanged tree such a call is an error whatever the data holds
+		"(b ? max : min)(1, _)", "(m.a ? upper : lower)('aB' + _)", "(bf || i ? fnV : f)(_)", "[max, min][iz](1, _)", "(s && len)(_)", "(_ ? max : min)(1, 2)", "(_ ? upper : lower)('aB')", "(_ ? fnV : f)(o1)", "(_)(o1)", "(o1 ? _ : max)(1, 2)", "f(o1)(_)", "(_ && len)('abc')", "[max, min][_](1, 2)",
 		"$x = o1, _", "_, $x = o1", "$p = o1, [_, $p.q, $p.z]", "f($x = o1, [_, typeof _])", "($p = o1) ? _ : $p.q.r", "$x = $p = o1, [_, $x.k, $p.q.r]", "$a$ = _, $a$.k")
 	var idx int64
 	for _, sh := range shapes {
